@@ -36,6 +36,7 @@ RULES = {
     "C18.R3": "trim: nearest-sample indices, inclusive end, three refusals, same arguments for all components",
 }
 
+
 SAMPLE_EXCLUDE = {"meta"}
 
 
@@ -230,17 +231,18 @@ def _r2(ck: Checker, prog: Program):
     init = sr.find_method("__init__")
     meta_stores = [st for st in own_nodes(init.node) if isinstance(st, ast.Assign) and any(
         isinstance(t, ast.Attribute) and t.attr == "meta" for t in st.targets)]
-    if len(meta_stores) != 1 or not isinstance(meta_stores[0].value, ast.Dict):
-        raise AnalysisError("SeismicRecording3C.__init__: `self.meta = {...}` not found")
-    dn = meta_stores[0].value
-    star_pos = [i for i, k in enumerate(dn.keys) if k is None and isinstance(dn.values[i], ast.Name) and dn.values[i].id == "meta"]
-    const_pos = [i for i, k in enumerate(dn.keys) if k is not None]
-    if len(star_pos) == 1 and (not const_pos or star_pos[0] > max(const_pos)):
+    if len(meta_stores) != 1:
+        raise AnalysisError("SeismicRecording3C.__init__: the single store of `self.meta` not found")
+    segs = _merge_segments(init, meta_stores[0].value, meta_stores[0])
+    # the order of a merge decides who wins: the supplied metadata must come after every default entry
+    supplied = [i for i, sg in enumerate(segs) if sg == ("spread", "meta")]
+    others = [i for i, sg in enumerate(segs) if sg != ("spread", "meta") and sg != ("spread", "{}")]
+    if supplied and (not others or supplied[-1] > max(others)):
         ck.ok("C18.R2", init.qualname, "self.meta = {defaults..., **meta}", detail="supplied metadata overrides the defaults")
     else:
         ck.violation("C18.R2", init.qualname, norm_key(meta_stores[0], 100),
                      "metadata handed to the constructor (by load / copy / split) is overridden by the constructor's defaults "
-                     "(`**meta` is not the last entry of the dict display)", loc=init.loc(meta_stores[0]))
+                     "(the supplied `meta` is not the last part of the merged dictionary)", loc=init.loc(meta_stores[0]))
     # orientation is stored from the argument (normalised), copy constructors forward the source's values
     for fq in ("seismic_recording_3c.SeismicRecording3C.from_seismic_recording_3c", "seismic_recording_3c.SeismicRecording3C.split"):
         f = prog.func(fq)
@@ -333,3 +335,55 @@ def _r3(ck: Checker, prog: Program):
     # three components, same arguments
     from .common import check_componentwise
     check_componentwise(ck, prog, "C18.R3", "trim", "for component in [ns, ew, vt]: component.trim(start_time, end_time)")
+
+
+def _merge_segments(fd, e: ast.AST, at: ast.AST, depth: int = 0):
+    """The ordered parts of a dictionary merge: ("key", k) for a literal entry, ("spread", "meta") for the constructor's
+    `meta` argument (in the world where it was given), ("spread", "{}") for an empty dict, ("spread", <text>) otherwise.
+    Forms: dict displays with `**`, `dict(a, **b)`, `a | b`, local names bound once, `{} if meta is None else meta`."""
+    if depth > 6:
+        raise AnalysisError("SeismicRecording3C.__init__: metadata merge too deep")
+    if isinstance(e, ast.Dict):
+        out = []
+        for k, v in zip(e.keys, e.values):
+            if k is None:
+                out += _merge_segments(fd, v, at, depth + 1)
+            else:
+                out.append(("key", ast.unparse(k)))
+        return out or [("spread", "{}")]
+    if isinstance(e, ast.BinOp) and isinstance(e.op, ast.BitOr):
+        return _merge_segments(fd, e.left, at, depth + 1) + _merge_segments(fd, e.right, at, depth + 1)
+    if isinstance(e, ast.Call) and call_name(e) == "dict":
+        out = []
+        for a in e.args:
+            out += _merge_segments(fd, a, at, depth + 1)
+        for k in e.keywords:
+            out += _merge_segments(fd, k.value, at, depth + 1) if k.arg is None else [("key", repr(k.arg))]
+        return out or [("spread", "{}")]
+    if isinstance(e, ast.IfExp):
+        t = e.test
+        if isinstance(t, ast.Compare) and len(t.ops) == 1 and isinstance(t.left, ast.Name) and t.left.id == "meta" \
+                and isinstance(t.comparators[0], ast.Constant) and t.comparators[0].value is None:
+            if isinstance(t.ops[0], ast.Is):
+                return _merge_segments(fd, e.orelse, at, depth + 1)
+            if isinstance(t.ops[0], ast.IsNot):
+                return _merge_segments(fd, e.body, at, depth + 1)
+        raise AnalysisError("SeismicRecording3C.__init__: conditional part of the metadata merge not recognised")
+    if isinstance(e, ast.BoolOp) and isinstance(e.op, ast.Or) and len(e.values) == 2 and isinstance(e.values[0], ast.Name) and e.values[0].id == "meta":
+        return [("spread", "meta")]
+    if isinstance(e, ast.Name):
+        if e.id == "meta" and "meta" in fd.params:
+            defs = reaching(fd).def_stmts("meta", at)
+            real = [d for d in defs if isinstance(d, ast.stmt)]
+            if not real:
+                return [("spread", "meta")]
+            if len(real) == 1 and isinstance(real[0], ast.Assign):
+                return _merge_segments(fd, real[0].value, real[0], depth + 1)
+            if all(isinstance(d, ast.Assign) and isinstance(d.value, ast.Dict) and not d.value.keys for d in real):
+                return [("spread", "meta")]      # `if meta is None: meta = {}`
+            raise AnalysisError("SeismicRecording3C.__init__: `meta` is rebound in an unrecognised way")
+        defs = [d for d in reaching(fd).def_stmts(e.id, at) if isinstance(d, ast.stmt)]
+        if len(defs) == 1 and isinstance(defs[0], ast.Assign) and len(defs[0].targets) == 1 and isinstance(defs[0].targets[0], ast.Name):
+            return _merge_segments(fd, defs[0].value, defs[0], depth + 1)
+        raise AnalysisError(f"SeismicRecording3C.__init__: `{e.id}` in the metadata merge is not bound exactly once")
+    return [("spread", ast.unparse(e))]
